@@ -113,6 +113,7 @@ type p1env struct {
 	files          []scen.File
 	paths          []string
 	nv             int
+	base           string
 }
 
 func (e *p1env) close() { os.RemoveAll(e.root) }
@@ -123,7 +124,9 @@ func newP1Env(files []scen.File, nv int, create bool) (*p1env, error) {
 		return nil, err
 	}
 	e := &p1env{root: root, dir: filepath.Join(root, "set"), files: files, nv: nv}
-	e.idx = filepath.Join(e.dir, "arch.par")
+	e.base = p1Bases[p1BaseCounter%len(p1Bases)]
+	p1BaseCounter++
+	e.idx = filepath.Join(e.dir, e.base+".par")
 	os.MkdirAll(e.dir, 0755)
 	for _, f := range files {
 		p := filepath.Join(e.dir, f.Name)
@@ -144,7 +147,13 @@ func newP1Env(files []scen.File, nv int, create bool) (*p1env, error) {
 	return e, nil
 }
 
-func (e *p1env) volPath(v int) string { return filepath.Join(e.dir, fmt.Sprintf("arch.p%02d", v)) }
+func (e *p1env) volPath(v int) string {
+	return filepath.Join(e.dir, fmt.Sprintf("%s.p%02d", e.base, v))
+}
+
+// index base names, some ending in characters of ".par"
+var p1Bases = []string{"arch", "data", "backup", "par", "a.p", "extra.", "set r"}
+var p1BaseCounter int
 
 // p1Damage describes one damage pattern.
 type p1Damage struct {
@@ -218,9 +227,12 @@ func p1Judge(r *core.R, e *p1env, vols map[int][]byte, d p1Damage, rng *rand.Ran
 		}
 	}
 	// truth
+	// Truth is read back from the disk, not assumed from the intended damage
+	// (a "replace" of a 1-byte file can reproduce the original byte).
 	var missing []int // positions among saved files
 	for k, i := range savedIdx {
-		if _, bad := d.bad[i]; bad {
+		b, err := os.ReadFile(e.paths[i])
+		if err != nil || string(b) != string(e.files[i].Data) {
 			missing = append(missing, k)
 		}
 	}
